@@ -34,6 +34,9 @@ def gen_and_run(tier, seed):
     # wide families (a node with three children) on classes with value-based __eq__: detaching the middle child
     cases += [dict(c, adv=["always_equal", "container", "ordering"][i % 3]) for i, c in enumerate(b4[:6000])]
     cases += mc.fresh_cases(mc.CLASSES)
+    # the children argument as a one-shot iterable (iterator, generator, reversed, map): same effect as the list
+    its = [c for c in cases[:nexh3] if c["op"][0] in ("set_children", "construct") and c["op"][-1] not in (None, "notiterable")]
+    cases += [dict(c, iterarg=["iter", "gen", "reversed", "map"][k % 4]) for k, c in enumerate(its) if k % 3 == 0]
     # a deep chain (600 levels) moved as a whole: a structural call must not need stack proportional to the depth
     n = 600
     chain = [[None if i == 0 else i - 1, [i + 1] if i + 1 < n else []] for i in range(n)] + [[None, []]]
@@ -41,6 +44,9 @@ def gen_and_run(tier, seed):
         cases.append(mc.mk(cls, chain, ["set_parent", 0, n]))
         cases.append(mc.mk(cls, chain, ["set_children", n, [0]]))
         cases.append(mc.mk(cls, chain, ["set_parent", n, n - 1]))
+        # ... and the loop check must reach the root of a chain deeper than the recursion limit
+        cases.append(mc.mk(cls, chain, ["set_parent", 0, n - 1]))
+        cases.append(mc.mk(cls, chain, ["set_children", n - 1, [0]]))
     obs = mc.run_impl(cases, PROP)
     hs = mc.random_histories(rng, 400 if tier == "quick" else 5000, 6 if tier == "quick" else 9,
                              12 if tier == "quick" else 40, mc.CLASSES, fault_ratio=0.0)
